@@ -1,6 +1,98 @@
-(* C04: theorem statements are added when the corresponding Proofs file is merged. *)
+(* C04 Memory limits hold after every tick and reported usage is the real usage.
+   Statements only; every proof is [exact <lemma of Proofs/MemoryFacts.v>].
+   [any rnd]: holds for every rounding function (hence for the float-faithful model).
+   [exact]: assumes exact arithmetic (forall x, cf_rnd C x == x): the code accumulates float deltas; these
+   theorems show the algorithm has no drift of its own and that every reconcile recomputes the exact sum.
+   The size of IEEE drift between reconciles is measured by the monitor, not proved (DESIGN.md C04). *)
 From Coq Require Import List ZArith QArith.
-From Eudoxia Require Import Model.Pool.
-Example C04_placeholder : p_active (new_pool 0 1%Z 1%Q) = nil.
-Proof. reflexivity. Qed.
-Print Assumptions C04_placeholder.
+Import ListNotations.
+From Eudoxia Require Import Model.Types Model.Lifecycle Model.Container Model.Pool Model.Executor
+  Proofs.OomFacts Proofs.MemoryFacts.
+
+(* [any rnd] after every pool tick no running container is over its allocation (and none is finished) *)
+Theorem C04_within_alloc : forall C w next p ss asgs w' next' p' res,
+  pool_tick C w next p ss asgs = Ok (w', next', p', res) ->
+  forall c, In c (p_active p') -> (c_mem c <= c_ram c)%Q /\ c_completed c = false.
+Proof. exact within_alloc. Qed.
+Print Assumptions C04_within_alloc.
+
+(* [exact] every reachable state, every pool: running containers are within their allocation, the pool's
+   usage is within its capacity, the reported usage IS the sum over the running containers (zero for a
+   pool with none). Scripts are non-negative memory demands. *)
+Theorem C04_every_reachable_state : forall C npools cpu ram s,
+  (forall x, (cf_rnd C x == x)%Q) -> script_nonneg C -> (0 <= ram)%Q ->
+  reach_exec C npools cpu ram s ->
+  forall p, In p (e_pools s) ->
+    (forall c, In c (p_active p) -> c_completed c = false /\ (c_mem c <= c_ram c)%Q) /\
+    (p_consumed p <= p_max_ram p)%Q /\
+    (p_consumed p == sumQ (map c_mem (p_active p)))%Q /\
+    (p_active p = [] -> (p_consumed p == 0)%Q).
+Proof. exact C04_reachable. Qed.
+Print Assumptions C04_every_reachable_state.
+
+(* [exact] every kill is justified: the failed container was over its own allocation, or it was killed by
+   the pool-level loop while the usage that remained after the earlier victims exceeded the pool *)
+Theorem C04_kill_justified : forall C w next p ss asgs w' next' p' res,
+  (forall x, (cf_rnd C x == x)%Q) ->
+  pool_tick C w next p ss asgs = Ok (w', next', p', res) ->
+  ids_ok next p -> all_running p ->
+  exists act2 w3 cons3 w4 cons4 act4 w1 cons1 act1 cons5 act5 vs,
+    tick_active C w3 cons3 act2 = Ok (w4, cons4, act4) /\
+    oom_killer C (p_max_ram p) w4 cons4 act4 = Ok (w', cons5, act5) /\
+    res = map (result_of (p_id p)) (filter c_completed act5) /\
+    kill_over_limit C w4 cons4 act4 = Ok (w1, cons1, act1) /\
+    act1 = map (kill_when over_limit) act4 /\
+    (usage_ok p -> (cons4 == sumQ (map c_mem act4))%Q /\ (cons1 == sumQ (map c_mem act1))%Q) /\
+    (vs <> [] -> (p_max_ram p < cons1)%Q) /\
+    Forall (fun v => In v act4 /\ c_completed v = false /\
+                     (c_mem v <= c_ram v)%Q /\ (0 < c_mem v)%Q) vs /\
+    forall r, In r res -> r_err r = true ->
+      exists c, In c act4 /\ c_completed c = false /\ r = result_of (p_id p) (dead c) /\
+        ((c_ram c < c_mem c)%Q
+         \/
+         exists j, nth_error vs j = Some c /\
+                   (p_max_ram p < cons1 - sumQ (map c_mem (firstn j vs)))%Q).
+Proof. exact kill_justified. Qed.
+Print Assumptions C04_kill_justified.
+
+(* [exact] without overcommit a container that stays within its allocation is never killed: the killer
+   amounts to its step 1, every failure is a container over its own allocation, the others keep running *)
+Theorem C04_no_kill_without_overcommit : forall C w next p ss asgs w' next' p' res,
+  (forall x, (cf_rnd C x == x)%Q) ->
+  cf_overcommit C = false ->
+  pool_tick C w next p ss asgs = Ok (w', next', p', res) ->
+  usage_ok p -> ids_ok next p -> all_running p -> ram_ok p ->
+  (forall a, In a asgs -> (0 <= a_ram a)%Q) ->
+  exists act2 w3 cons3 w4 cons4 act4 cons5 act5,
+    tick_active C w3 cons3 act2 = Ok (w4, cons4, act4) /\
+    oom_killer C (p_max_ram p) w4 cons4 act4 = Ok (w', cons5, act5) /\
+    res = map (result_of (p_id p)) (filter c_completed act5) /\
+    kill_over_limit C w4 cons4 act4 = Ok (w', cons5, act5) /\
+    act5 = map (kill_when over_limit) act4 /\
+    (cons5 <= sumQ (map c_ram act4))%Q /\ (sumQ (map c_ram act4) <= p_max_ram p)%Q /\
+    p_active p' = filter (fun c => negb (c_completed c)) act5 /\
+    (forall r, In r res -> r_err r = true ->
+       exists c, In c act4 /\ c_completed c = false /\ r = result_of (p_id p) (dead c) /\
+                 (c_ram c < c_mem c)%Q) /\
+    (forall c, In c act4 -> c_completed c = false -> (c_mem c <= c_ram c)%Q -> In c (p_active p')).
+Proof. exact no_kill_without_overcommit. Qed.
+Print Assumptions C04_no_kill_without_overcommit.
+
+(* the hypotheses of the two theorems above hold for every pool of every reachable state *)
+Theorem C04_invariants_reachable : forall C npools cpu ram s,
+  (forall x, (cf_rnd C x == x)%Q) -> script_nonneg C -> (0 <= ram)%Q ->
+  reach_exec C npools cpu ram s -> Forall (pool_inv C (e_next s)) (e_pools s).
+Proof. exact reach_inv. Qed.
+Print Assumptions C04_invariants_reachable.
+
+(* [exact] Python's compensated sum() returns the exact sum when nothing is rounded *)
+Theorem C04_py_sum_exact : forall rnd, (forall x, (rnd x == x)%Q) -> forall l, (py_sum rnd l == sumQ l)%Q.
+Proof. exact py_sum_exact. Qed.
+Print Assumptions C04_py_sum_exact.
+
+(* non-vacuity: a two-tick reachable history with an own-limit kill and a completion; an overcommitted
+   pool where both containers are within their allocation and the higher scorer is killed *)
+Example C04_witness : reach_exec Examples.exC 1 4%Z 10%Q Examples.s2 /\
+  forall p, In p (e_pools Examples.s2) ->
+    (p_consumed p <= p_max_ram p)%Q /\ (p_consumed p == sumQ (map c_mem (p_active p)))%Q.
+Proof. split; [exact Examples.ex_reach | exact Examples.ex_C04]. Qed.
